@@ -324,6 +324,12 @@ def r4_structure(P, rep, ctx):
     keys_ = {t: norm(g.nodes[t].exprs[0]) for t, _ in leaf}
     leaf_first = [(t, lab) for t, lab in leaf if not any(t2 != t and keys_[t2] == keys_[t] and t in g.reach([t2], avoid=[L]) for t2, _ in leaf)]
     okv = bool(vs) and bool(leaf) and f.all_hit_before(vs, edges=leaf, src=L) and all(f.hit_before(L, nodes=vs, src_edge=e) for e in leaf_first)
+    # which value: a symlink (tested first: is_file follows links) gets its target, a regular file its content hash
+    hv = [i for i, v, b in f.stores("__v") if norm(g.nodes[i].stmt.value) == f"file_hashsum({pv}, {alg})"]
+    sv_ = [i for i, v, b in f.stores("__v") if "symlink:" in norm(g.nodes[i].stmt.value)]
+    okk = bool(hv) and bool(sv_) and f.all_hit_before(hv, edges=is_file, src=L) and f.all_hit_before(hv, edges=f.neg(is_sym), src=L) and f.all_hit_before(sv_, edges=is_sym, src=L) and all(f.hit_before(L, nodes=sv_, src_edge=e) for e in is_sym if e in leaf_first)
+    rep.check(okk, "C19.R4", fi.qual, "symlinks are recorded by target (decided before is_file), regular files by content hash", fi.loc(), construct="entry value by kind",
+              message="dir_hashsums does not compute the content hash exactly for regular files and the link target exactly for symlinks: two directories with different file contents (or link targets) get equal trees")
     rep.check(okv, "C19.R4", fi.qual, "every file and symlink is recorded under its name (and only those)", fi.loc(), construct="entry store condition", message="dir_hashsums does not store the value of every file/symlink entry (or stores one for directories)")
     ok = bool(segl)
     for n in segl:
